@@ -49,6 +49,8 @@ def build_frames(at, cm, fields, vmaps, k=1):
     real = real_junctions(at)
     jsorted = sorted(at["J"], key=int)
     zero_j = jsorted.index(real[len(real) // 2])      # "swap0": id 0 sits on an interface end point
+    adj = T.cell_adjacency(at)
+    loose = [c for c in at["C"] if not adj[c]] if len(at["C"]) > 1 else []      # cells that touch no other cell
     for t, dz in enumerate(fields):
         vm = vmaps[t % len(vmaps)]
         vorder = None
@@ -58,14 +60,25 @@ def build_frames(at, cm, fields, vmaps, k=1):
         vm = ["swap", 0, zero_j] if vm == ["swap0"] else vm
         if vm == ["stored_rev"]:
             vm, vorder = ["rev"], "id"
-        spec.append({"at": at, "k": k, "cmap": cm, "post": SC.displace_post(at, dz), "time": float(t), "lab": {"vmap": vm, "vorder": vorder}})
+        lab = {"vmap": vm, "vorder": vorder}
+        if loose:
+            # where a cell's stored cycle starts is arbitrary: a detached cell starts at another vertex in every frame
+            lab["shifts"] = {c: (2 * t + 1) for c in loose}
+        spec.append({"at": at, "k": k, "cmap": cm, "post": SC.displace_post(at, dz), "time": float(t), "lab": lab})
     return spec
 
 
 def judge_pair(at, real, pos0, pos1, info0, info1, mapping, guess, viol, tags, frame0, frame1, margin=1e-9):
     """one consecutive pair; pos: {jid: complex}"""
-    ends0 = {b[0] for b in frame0.big_edges_list} | {b[-1] for b in frame0.big_edges_list}
-    ends1 = {b[0] for b in frame1.big_edges_list} | {b[-1] for b in frame1.big_edges_list}
+    # interface end points by the statement's own definition (C08): vertices with three or more mesh edges - counted from the mesh
+    # edges themselves, not read from the library's interface list
+    def junction_vertices(frame):
+        deg = {}
+        for ed in frame.edges.values():
+            deg[ed.v1.id] = deg.get(ed.v1.id, 0) + 1
+            deg[ed.v2.id] = deg.get(ed.v2.id, 0) + 1
+        return {vid for vid, n in deg.items() if n >= 3}
+    ends0, ends1 = junction_vertices(frame0), junction_vertices(frame1)
     if mapping is None:
         return "none"
     for a, b in mapping.items():
@@ -347,10 +360,10 @@ def build(tier, seed):
                 LatticeFields("v5x4", None, [0.95], 4, [["id"], STORED_REV], [["id"], STORED_REV]),
                 # a tissue many junction spacings wide: several successors fall inside the widest search ring of one junction
                 LatticeFields("hex6x4", None, [1.0], 4, [["id"], STORED_REV], [["id"], STORED_REV], mob=["id"], theta=0.0, bonds=[0.85, 0.65]),
-                Series([["v5x5", small], ["v5x4", None], ["v4x4p%d" % (seed + 1), None]], 2), shared]
+                Series([["v5x5", small], ["v5x4", None], ["v4x4p%d" % (seed + 1), None], ["hex3x3+loose", None]], 2), shared]
     return [LatticeFields("v5x5", small, [0.95, 0.4], 4, [["id"], ["rev"], ["rot", 5]], [["id"], ["rev"], ["rot", 3]]),
             LatticeFields("v5x4", None, [0.95, 0.4], 4, [["gap", 3, 7], STORED_REV], [["id"], STORED_REV]),
             LatticeFields("hex6x4", None, [1.0], 4, [["id"], STORED_REV, ["rot", 7]], [["id"], STORED_REV], mob=["id"], theta=0.0, bonds=[0.9, 0.85, 0.75, 0.65, 0.4]),
             LatticeFields("hex6x6", None, [1.0], 4, [["id"], STORED_REV], [["id"], STORED_REV], mob=["id"], theta=0.0, bonds=[0.85, 0.65]),
             LatticeFields("hex5x6", None, [1.0], 4, [["id"], STORED_REV], [["id"], STORED_REV], mob=["m", 0.02, 0.01], theta=0.0, bonds=[0.85, 0.65]),
-            Series([["v5x5", small], ["v5x4", None], ["v5x5", None], ["v4x4p%d" % (seed + 1), None]], 3), shared]
+            Series([["v5x5", small], ["v5x4", None], ["v5x5", None], ["v4x4p%d" % (seed + 1), None], ["hex3x3+loose", None], ["hex4x3+loose", None]], 3), shared]
